@@ -94,7 +94,7 @@ def run_config(cfg, hash_order=None, want_trace=False, shared=None):
     from mc.explorer import HorizonExceeded
 
     patch_stack_horizon(5000)
-    spec = grammar_specs()[cfg["g"]]
+    spec = cfg.get("_spec") or grammar_specs()[cfg["g"]]
     G._counter = itertools.count(1000 + cfg["g"])  # same module name in every environment
     if shared is not None and "bundle" in shared:
         b = shared["bundle"]
@@ -232,6 +232,13 @@ def units(tier, seed):
             us.append({"kind": "orders", "config": cfg, "max_perms": 24 if tier == "quick" else 120})
     for cfg in cfgs:
         us.append({"kind": "twice", "config": cfg})
+    # a search, then a refinement is re-declared the documented way and the grammar extracted again, then the same seeded
+    # search: identical to that search run on classes that were declared with the new refinement from the start
+    for cls_name, field, new_t in (("Var", "n", ["ann", "str", ["VarRange", ["z", "w", "u"]]]), ("Lit", "v", ["ann", "int", ["IntRange", 5, 7]])):
+        for rep in ("tree", "ge", "dsge"):
+            for algo in ("gp", "hc", "rs"):
+                us.append({"kind": "reannotated", "config": {"g": 1, "rep": rep, "algo": algo, "seed": cfgs[0]["seed"]},
+                           "reannotate": [cls_name, field, new_t]})
     return us
 
 
@@ -239,6 +246,39 @@ def run_unit(unit):
     from mc.harness import UnitResult, Violation
 
     r = UnitResult()
+    if unit["kind"] == "reannotated":
+        from mc import grammars as G
+
+        cfg = unit["config"]
+        cls_name, field, new_t = unit["reannotate"]
+        sh: dict = {}
+        first = run_config(cfg, want_trace=True, shared=sh)
+        b = sh["bundle"]
+        new_py = G.build_type(new_t, b.classes)
+        cls = b.classes[cls_name]
+        cls.__init__.__annotations__[field] = new_py
+        cls.__annotations__[field] = new_py
+        sh.pop("grammar", None)
+        sh.pop("rep", None)
+        second = run_config(cfg, want_trace=True, shared=sh)
+        b.cleanup()
+        spec2 = G.respec_field(grammar_specs()[cfg["g"]], cls_name, field, new_t)
+        spec2["name"] = grammar_specs()[cfg["g"]]["name"]
+        alone = run_config(dict(cfg, _spec=spec2), want_trace=True)
+        r.executions += 3
+        r.count("reannotated_histories")
+        r.nontrivial += 1
+        if first[0] == alone[0]:
+            r.count("reannotation_without_effect_on_this_search")
+        if second[0] != alone[0]:
+            k = next((i for i, (x, y) in enumerate(zip(second[1], alone[1])) if x != y), min(len(second[1]), len(alone[1])))
+            r.add_violation(Violation(PROP, f"{cfg['algo']}.search", "second-run-differs", {"rep": cfg["rep"], "algo": cfg["algo"], "shared": "reannotated-classes"},
+                                      {"unit": unit, "first_difference": k},
+                                      f"{cfg} after {cls_name}.{field} was re-declared and the grammar extracted again: the search diverges at evaluation {k} "
+                                      f"from the same search on classes declared that way from the start: {second[1][k:k+1]} vs {alone[1][k:k+1]}"))
+        r.states += len({second[0], alone[0]})
+        r.samples.append({"config": cfg, "reannotate": unit["reannotate"][:2]})
+        return r
     if unit["kind"] == "twice":
         cfg = unit["config"]
         a = run_config(cfg, want_trace=True)
